@@ -51,6 +51,10 @@ impl Property for C07 {
         }
     }
 
+    fn shrink_iters(&self) -> u32 {
+        3000
+    }
+
     fn tape_len(&self) -> usize {
         900
     }
